@@ -112,6 +112,20 @@ func (c *localCache) Modify(ctx context.Context, name string, opts *Opts, dels [
 	}
 
 	for _, upd := range upds {
+		if opts.Store == cachepb.Store_INTENDED {
+			// the intended store keeps one entry per (path, priority, owner, timestamp):
+			// remove the owner's previous entry for this path, it would otherwise
+			// stay next to the new one
+			err = c.c.DeletePrefix(ctx, name, &cache.Opts{
+				Store:    getStore(opts.Store),
+				Path:     [][]string{upd.GetPath()},
+				Owner:    opts.Owner,
+				Priority: opts.Priority,
+			})
+			if err != nil {
+				return err
+			}
+		}
 		err = c.c.WriteValue(ctx, name, &cache.Opts{
 			Store:    getStore(opts.Store),
 			Path:     [][]string{upd.GetPath()},
